@@ -419,7 +419,13 @@ class Replayer:
         if a.get("scalar"):
             return {"vals": [c(nodes[0])], "scalar": True}
         form = a.get("form", "tuple")
-        arg = tuple(nodes) if form == "tuple" else list(nodes)
+        if form == "array":
+            import numpy as np
+            arg = np.array(list(nodes), dtype=object if self.mode.exact else float)
+        elif form == "gen":
+            arg = (x for x in list(nodes))
+        else:
+            arg = tuple(nodes) if form == "tuple" else list(nodes)
         r = c.eval(arg) if a.get("via") == "eval" else c(arg)
         return {"vals": r, "scalar": False}
 
@@ -432,7 +438,16 @@ class Replayer:
         return {"f": f, "u": u}
 
     def do_CvKnotInsert(self, live, a):
-        live[a["obj"]].knot_insert(self.mode.nums(a["nodes"]))
+        nodes = self.mode.nums(a["nodes"])
+        form = a.get("form", "list")
+        if form == "array":
+            import numpy as np
+            nodes = np.array(list(nodes), dtype=object if self.mode.exact else float)
+        elif form == "gen":
+            nodes = (x for x in list(nodes))
+        elif form == "tuple":
+            nodes = tuple(nodes)
+        live[a["obj"]].knot_insert(nodes)
 
     def do_CvDegreeIncrease(self, live, a):
         c = live[a["obj"]]
@@ -446,6 +461,18 @@ class Replayer:
         if a.get("form") == "noarg":
             return {"pieces": c.split()}
         return {"pieces": c.split(self.mode.nums(a["nodes"]))}
+
+    def do_CvSplitJoin(self, live, a):
+        c = live[a["obj"]]
+        nodes = self.mode.nums(a["nodes"])
+        if a.get("form") == "array":
+            import numpy as np
+            nodes = np.array(list(nodes), dtype=object if self.mode.exact else float)
+        pieces = c.split(nodes)
+        r = pieces[0]
+        for p in pieces[1:]:
+            r = r | p
+        return {"curve": r, "pieces": pieces}
 
     def tol_arg(self, tol):
         if tol[0] == "default":
@@ -502,7 +529,19 @@ class Replayer:
             r = A / B
         else:
             raise core.MachineryError(f"unknown op {op}")
-        return {"curve": r, "other_unchanged": self.project(B) == snapB, "operands": (B,)}
+        out = {"curve": r, "other_unchanged": self.project(B) == snapB, "operands": (B,)}
+        if self.mode.exact and self.mode.name == "fraction" and (A.weights is not None or B.weights is not None) \
+                and (A.weights is None or B.weights is None or len(B.ctrlpoints) % 2 == 0 or op in ("add", "sub")):
+            # a rational curve does not change when all its weights are multiplied by a constant: the same operation on
+            # operands written with weights of size 1e-12 (two different factors) must give the same function
+            def scaled(C, lam):
+                return C if C.weights is None else self.Curve(C.knotvector, list(C.ctrlpoints), [lam * w for w in C.weights])
+            A2, B2 = scaled(A, Fraction(1, 10 ** 12)), scaled(B, Fraction(3, 10 ** 12))
+            try:
+                out["scaled"] = {"add": lambda: A2 + B2, "sub": lambda: A2 - B2, "mul": lambda: A2 * B2, "div": lambda: A2 / B2}[op]()
+            except Exception as e:
+                out["scaled"] = e
+        return out
 
     def do_CvScalar(self, live, a):
         A = live[a["obj"]]
@@ -520,7 +559,17 @@ class Replayer:
             return {"eq": [A == o for o in others], "ne": [A != o for o in others], "sym": []}
         B = self.curve_from(a["other"])
         snapB = self.project(B)
-        return {"eq": [A == B], "ne": [A != B], "sym": [B == A], "other_unchanged": self.project(B) == snapB}
+        out = {"eq": [A == B], "ne": [A != B], "sym": [B == A], "other_unchanged": self.project(B) == snapB}
+        if self.mode.exact and self.mode.name == "fraction" and A.ctrlpoints is not None and B.ctrlpoints is not None:
+            # both curves translated by the same huge exact constant: the same answer (equality of functions is
+            # translation invariant); differences far above 1e-9 must not drown in the magnitude of the points
+            T = 10 ** 20 + Fraction(1, 3)
+            A2 = self.Curve(A.knotvector, [p + T for p in A.ctrlpoints], A.weights)
+            B2 = self.Curve(B.knotvector, [p + T for p in B.ctrlpoints], B.weights)
+            out["eq"].append(A2 == B2)
+            out["ne"].append(A2 != B2)
+            out["sym"].append(B2 == A2)
+        return out
 
     def do_CvCopy(self, live, a):
         import copy
@@ -951,11 +1000,31 @@ class Replayer:
                                d={"U": d["U"], "P": [x if core.fits32(x) else NAN for x in d["P"]],
                                   "W": [x if core.fits32(x) else NAN for x in d["W"]]}, dv=dv, tag=t)
             return
+        if name == "CvSplitJoin":
+            if cls != "ok":
+                fails.append("split / join of the pieces raised")
+                return
+            if len(val["pieces"]) != t["ret"]["val"]:
+                fails.append(f"{len(val['pieces'])} pieces, spec {t['ret']['val']}")
+            dv = self.observed_values("CvClean", c, {"U": [], "P": [], "W": []}, d, curve)
+            self.validator.add({"name": "SameFunction", "op": "split and join all pieces"}, c=c,
+                               d={"U": d["U"], "P": [x if core.fits32(x) else NAN for x in d["P"]],
+                                  "W": [x if core.fits32(x) else NAN for x in d["W"]]}, dv=dv, tag=t)
+            return
         if name == "CvFitPoints":
             if cls != "ok":
                 return
             pre = t["pre"][a["obj"]]
             act = {"name": name, "kv": pre["U"], "weights": pre["W"], "nodes": a["nodes"], "data": a["data"]}
+        if name == "CvArith" and cls == "ok" and isinstance(val, dict) and "scaled" in val:
+            r2 = val["scaled"]
+            if isinstance(r2, Exception):
+                fails.append(f"the same operation with all weights of the operands scaled by 1e-12 raised {type(r2).__name__}: {r2}")
+            else:
+                U2 = [rat(x) for x in r2.knotvector]
+                d2 = {"U": U2, "P": [NAN] * r2.npts, "W": []}       # markers: the values travel in dv
+                dv2 = self.observed_values(name, c, b, d2, r2)
+                self.validator.add(dict(act, scaled_weights=True), c=c, b=b, d=d2, cls=cls, tag=t, dv=dv2)
         dv = []
         if name not in ("CvFitCurve", "CvFitPoints") and cls == "ok":
             dv = self.observed_values(name, c, b or {"U": [], "P": [], "W": []}, d, curve)
@@ -1418,7 +1487,57 @@ class Replayer:
             ok, msg = self._point_ok(g, w)
             if not ok:
                 f.append(f"value at node {t['act']['nodes'][i]}: {msg}")
+        if not f and not val["scalar"] and t["act"].get("form") == "tuple" and len(want) > 2:
+            f += self.near_knot_values(live[t["act"]["obj"]], t)
         return f
+
+    def near_knot_values(self, c, t):
+        """Parameters 1e-12 beside an interior knot.  On a span a polynomial curve IS the polynomial through the
+        spec's values at the deg+1 (or more) grid points of that span, so the value just left (right) of a knot is that
+        polynomial's value there - even where the library's tolerance-based multiplicity count would call the
+        parameter "the knot".  TLC cannot hold 1e-12 (32-bit integers); the interpolation is done here, on TLC's values."""
+        pre = t["pre"][t["act"]["obj"]]
+        if pre.get("W"):
+            return []
+        U = [fr(x) for x in pre["U"]]
+        deg = self._deg(pre["U"])
+        ks = sorted(set(U))
+        pts = {}
+        for u, w in zip(t["act"]["nodes"], t["ret"]["val"]):
+            if isinstance(w, list) and len(w) == 2 and all(isinstance(z, int) for z in w) and w[1] != 0:
+                pts[fr(u)] = fr(w)
+        eps = Fraction(1, 10 ** 12)
+        out = []
+
+        def lagrange(xs, x):
+            tot = Fraction(0)
+            for i, xi in enumerate(xs):
+                term = pts[xi]
+                for j, xj in enumerate(xs):
+                    if j != i:
+                        term *= (x - xj) / (xi - xj)
+                tot += term
+            return tot
+
+        for a, b in zip(ks[:-1], ks[1:]):
+            inside = sorted(x for x in pts if a <= x < b)[: deg + 1]     # the value at a is the right piece's value
+            if len(inside) < deg + 1:
+                continue
+            for x in ([b - eps] if b != ks[-1] else []) + ([a + eps] if a != ks[0] else []):
+                want = lagrange(inside, x)
+                try:
+                    got = c(self.mode.num(rat(x)))
+                except Exception as e:
+                    out.append(f"value 1e-12 beside the knot {b if x > inside[-1] else a} raised {type(e).__name__}: {e}")
+                    continue
+                if self.mode.exact:
+                    ok = (not isinstance(got, float)) and Fraction(got) == want
+                else:
+                    ok = close(got, want)
+                if not ok:
+                    out.append(f"value at {float(x)!r} (1e-12 beside a knot, inside the span [{a}, {b})): got {got!r}, "
+                               f"the span's polynomial gives {want}")
+        return out
 
     def cmp_FnBasis(self, live, t, val):
         """ret.val = the row [N_0j(u) .. ]; compare every indexing form"""
@@ -1466,6 +1585,40 @@ class Replayer:
         tab = fn[:, j]([u, u])
         for i in range(min(nrows, npts)):
             row_ok(tab[i][1], want[i], f"f[:, {j}]([u,u])[{i}][1]")
+        # several nodes at once, unsorted and repeated, as a numpy array: column k is the table at node k
+        import numpy as np
+        lo, hi = fn.knotvector.limits
+        arr = np.array([hi, u, lo, u], dtype=object if self.mode.exact else float)
+        tab = fn[:, j](arr)
+        for i in range(min(nrows, npts)):
+            row_ok(tab[i][1], want[i], f"f[:, {j}](array)[{i}][1]")
+            row_ok(tab[i][3], want[i], f"f[:, {j}](array)[{i}][3]")
+            for k, v in ((0, hi), (2, lo)):
+                if not self._same_value(tab[i][k], fn[i, j](v)):
+                    f.append(f"f[:, {j}](array)[{i}][{k}] = {tab[i][k]!r} but f[{i}, {j}]({v}) = {fn[i, j](v)!r}")
+        # negative and stepped slices select rows of the same table
+        if npts >= 2:
+            for what, sl_, idx in (("f[-2:, j]", fn[-2:, j](u), range(npts - 2, npts)), ("f[::2, j]", fn[::2, j](u), range(0, npts, 2)),
+                                   ("f[::-1, j]", fn[::-1, j](u), range(npts - 1, -1, -1))):
+                for k, i in enumerate(idx):
+                    if i < nrows:
+                        row_ok(sl_[k], want[i], f"{what}({u})[{k}]")
+        # a copy is an equal, independent Function; removing the weights gives the polynomial table again
+        import copy as _copy
+        g = _copy.deepcopy(fn)
+        col2 = g[:, j](u)
+        for i in range(min(nrows, npts)):
+            row_ok(col2[i], want[i], f"deepcopy(f)[:, {j}]({u})[{i}]")
+        if t["act"]["weights"]:
+            g.weights = None
+            col3 = g[:, j](u)
+            h = self.Function(fn.knotvector)
+            ref = h[:, j](u)
+            if any(not self._same_value(x, y) for x, y in zip(col3, ref)):
+                f.append(f"after weights = None the table differs from a Function that never had weights: {list(col3)} vs {list(ref)}")
+            again = fn[:, j](u)   # and the original still has its weights
+            for i in range(min(nrows, npts)):
+                row_ok(again[i], want[i], f"f[:, {j}]({u})[{i}] after changing a copy")
         for bad in (npts, -npts - 1):
             try:
                 fn[bad, j]
@@ -1478,6 +1631,11 @@ class Replayer:
         except (IndexError, TypeError):
             pass
         return f
+
+    def _same_value(self, x, y):
+        if self.mode.exact:
+            return x == y
+        return close(x, y)
 
     def cmp_CvSplit(self, live, t, val):
         want = t["ret"]["val"]
